@@ -463,6 +463,7 @@ class Engine:
             key = text[text.rfind('::') + 2:]
         segs_t = strip_generics(_squash_impl(text))
         best = None
+        loose = []
         for mf in self.mfs:
             for ent in mf.consts.get(key, ()):
                 name = ent[0]
@@ -476,7 +477,22 @@ class Engine:
                 if a[-k:] == b[-k:]:
                     if best is None or len(a) > best[0]:
                         best = (len(a), ent)
-        return best[1] if best else None
+                elif len(a) >= 2 and len(b) >= 2 and a[-2:] == b[-2:]:
+                    # use site names the impl's type (`m::Type::<'_>::f::promoted[0]`), the definition its span
+                    # (`m::<impl at ..>::f::promoted[0]`): same function + index, rank by common module prefix
+                    pre = 0
+                    for x, y in zip(a, b):
+                        if x != y:
+                            break
+                        pre += 1
+                    loose.append((pre, ent))
+        if best:
+            return best[1]
+        if loose:
+            loose.sort(key=lambda t: -t[0])
+            if len(loose) == 1 or loose[0][0] > loose[1][0]:
+                return loose[0][1]
+        return None
 
     def eval_const(self, text):
         c = self.const_cache.get(text)
